@@ -78,7 +78,8 @@ class _Fn:
                         self.stores[nm] = self.stores.get(nm, 0) + 1
                 if isinstance(c, (ast.FunctionDef, ast.AsyncFunctionDef, ast.ClassDef)):
                     self.stores[c.name] = self.stores.get(c.name, 0) + 1
-                scan(c, nested or isinstance(c, (ast.FunctionDef, ast.AsyncFunctionDef, ast.Lambda, ast.ClassDef, ast.ListComp, ast.SetComp, ast.DictComp, ast.GeneratorExp)))
+                # a comprehension runs where it stands (a generator expression may not: it counts as deferred)
+                scan(c, nested or isinstance(c, (ast.FunctionDef, ast.AsyncFunctionDef, ast.Lambda, ast.ClassDef, ast.GeneratorExp)))
 
         scan(fn, False)
         # names / attribute names whose object the routine may change in place: the receiver of a method call, the base of a
@@ -102,6 +103,24 @@ class _Fn:
                 if k:
                     self.touched.add(k)
 
+    def _nothing_rebinds(self, e: ast.Attribute) -> bool:
+        """`root.a` (one level) where the program does store to an attribute `a` somewhere, but nothing this routine does can:
+        it has no store to an attribute of that name, calls no method on `root` and hands `root` to no call."""
+        if not isinstance(e.value, ast.Name):
+            return False
+        root = e.value.id
+        for c in ast.walk(self.fn):
+            if isinstance(c, ast.Attribute) and c.attr == e.attr and isinstance(c.ctx, (ast.Store, ast.Del)):
+                return False
+            if isinstance(c, ast.Call):
+                if isinstance(c.func, ast.Attribute) and isinstance(c.func.value, ast.Name) and c.func.value.id == root:
+                    return False
+                if any(isinstance(a, ast.Name) and a.id == root for a in list(c.args) + [k.value for k in c.keywords]):
+                    return False
+            if isinstance(c, (ast.Await, ast.Yield, ast.YieldFrom)):
+                return False
+        return True
+
     def _fixed_name(self, name: str) -> bool:
         if name in self.declared:
             return False
@@ -119,7 +138,9 @@ class _Fn:
         if isinstance(e, ast.Name):
             return isinstance(e.ctx, ast.Load) and self._fixed_name(e.id) and not (operand and e.id in self.touched)
         if isinstance(e, ast.Attribute):
-            return isinstance(e.ctx, ast.Load) and e.attr not in self.unstable and self.stable(e.value) and not (operand and e.attr in self.touched)
+            if not isinstance(e.ctx, ast.Load) or (operand and e.attr in self.touched) or not self.stable(e.value):
+                return False
+            return e.attr not in self.unstable or self._nothing_rebinds(e)
         if isinstance(e, ast.BoolOp):
             return all(self.stable(v, True) for v in e.values)
         if isinstance(e, ast.BinOp):
